@@ -61,6 +61,18 @@ CHECKS = {
         "documented tree is a violation; periodic ghosts not exercised "
         "here (C04/C07)."),
   technique="differential property-based testing: generated programs x generated data, compiled code vs. reference interpreter"),
+ 'C06': dict(
+  text=("Model-based sequences (up to 30/60 operations from 24 kinds of the "
+        "public ParticleArray API over one or two arrays with all five C "
+        "types, strides 1-4, constants, mixed tags, zero particles) applied "
+        "to the real array and to a record-list model; invariants (lengths "
+        "= n*stride, bookkeeping dicts, whole records by uid, constants, "
+        "alignment) after every operation; crash-contained by a journal."),
+  note=("Overruns that stay inside a carray's spare capacity are not "
+        "observable; values of slots created by a growing resize are "
+        "adopted, not asserted; output_property_arrays after pickle carries "
+        "no claim."),
+  technique="model-based (stateful) property-based testing with Hypothesis against a record-list reference model"),
 }
 
 NOT_APPLICABLE = [
